@@ -25,7 +25,7 @@ import (
 	"verif/kit"
 )
 
-const maxT = 4 // t ranges over 0..maxT; timestamps over 1..3
+const maxT = 5 // t ranges over 0..maxT; timestamps over 1..3; t = maxT is a far-future "apply everything" instant
 
 var (
 	epoch = time.Date(2020, 3, 1, 0, 0, 0, 0, time.UTC)
@@ -40,6 +40,9 @@ func init() {
 		stampTab[i] = epoch.Add(time.Duration(i) * time.Hour)
 		atTab[i] = epoch.Add(time.Duration(i) * time.Hour).In(otherZone)
 	}
+	// outside the range of int64 nanoseconds since 1970 (ends in 2262): times are
+	// compared as instants, not as nanosecond counts
+	atTab[maxT] = time.Date(9999, 12, 31, 23, 59, 59, 0, time.UTC)
 }
 
 func stamp(ts int) time.Time { return stampTab[ts] }
